@@ -24,9 +24,11 @@ RULE = ('seeded random histories (3..16 operations) over the hierarchy HA(x) <- 
         'destroySelf through every entry class, select on every class with filters (comparison, IS NULL, AND/OR/NOT, id) mixing '
         'own and inherited columns, selectBy, alternate-id lookup, rows referencing the middle level through a cascade=False '
         'foreign key; autocommit connection or one open Transaction; warm or cold identity map; in a third of the histories the '
-        'classes\' default connection is another, empty database and every operation names its connection; plus an enumerated stream '
+        'classes\' default connection is another, empty database and every operation names its connection; in 35 % the hierarchy '
+        'is one of the 7 variants in which HB and/or HC and/or HB2 declare no own column; plus an enumerated stream '
         '(every class x every failing level x every kind of failure, every entry class x every column, multi-column sets with an '
-        'invalid own / inherited value through every entry class) and a malformed stream '
+        'invalid own / inherited value through every entry class; every column-less variant x class x entry class fetched cold and warm '
+        'through get from every ancestor level and select on every level, written and destroyed through what was handed out) and a malformed stream '
         '(absent ids, wrong entry class, invisible columns). '
         'Non-trivial = the history holds a subclass instance and reaches it through an ancestor class or selects on a subclass; '
         'distinct = distinct (mode, warm, operation list).')
@@ -42,7 +44,9 @@ TRUSTED_BASE = [
     'aborts only the statement (validated by execution on sqlite)',
     'the identity map (C04/C05) is not modelled: an operation of the model reads the tables; histories run warm (cache kept) as long as the '
     'raw tables nest, and with a cold cache at every step once they do not',
-    'fixture-specific: one own Int column per class; filters use only columns visible from the selected class (own + inherited); '
+    'a level without an own column is presented to the model as a level whose nullable column is always NULL (create arguments, views and dumps show NULL there); '
+    'non-inheritable (_inheritable = False) column-less leaves, the only case in which the unchanged get() skips the child query, are not covered',
+    'fixture-specific: at most one own Int column per class; filters use only columns visible from the selected class (own + inherited); '
     'orderBy / lazyColumns / accumulate / joins / events / lazyUpdate are outside',
     'the correspondence harness tools/props/c15.py and the cases.v evaluation',
 ]
@@ -85,15 +89,15 @@ def gen_filter(rng, k, depth=0):
 class Sim(object):
     """rough prediction of what the history does (only to aim the generator: which ids are alive, as what)"""
 
-    def __init__(self, mode):
-        self.mode, self.seq, self.live, self.vals = mode, 0, {}, {}
+    def __init__(self, mode, shape=()):
+        self.mode, self.seq, self.live, self.vals, self.shape = mode, 0, {}, {}, shape
 
     def used(self, col, v, but=None):
         return v is not None and any(d.get(col) == v for i, d in self.vals.items() if i != but)
 
     def create(self, k, kw, unk):
         chain = CHAIN[k]
-        if 'B' in chain and 'y' not in kw:
+        if 'B' in chain and 'y' not in kw and 'B' not in self.shape:
             return
         for n, c in enumerate(chain):
             col = COLOF[c]
@@ -115,12 +119,53 @@ class Sim(object):
         self.vals.pop(i, None)
 
 
-def gen_history(rng, n, mode=None, warm=None, refs=True, conn=None):
+SHAPES = [['B'], ['C'], ['B2'], ['B', 'C'], ['B', 'B2'], ['C', 'B2'], ['B', 'C', 'B2']]
+
+
+def strip_filter(f, shape):
+    t = f[0]
+    if t == 'cmp' and CLSOF[f[1]] in shape:
+        return ['id', f[2], f[3]] if f[3] is not None else ['id', '>=', 0]
+    if t in ('and', 'or'):
+        return [t, strip_filter(f[1], shape), strip_filter(f[2], shape)]
+    if t == 'not':
+        return ['not', strip_filter(f[1], shape)]
+    return f
+
+
+def strip_op(op, shape):
+    """the operation without any mention of a column the shape does not have"""
+    if not shape:
+        return op
+    gone = lambda col: col is not None and CLSOF[col] in shape
+    t = op[0]
+    if t == 'create':
+        return ['create', op[1], {c: v for c, v in op[2].items() if not gone(c)}, op[3]]
+    if t == 'setattr' and gone(op[3]):
+        return ['get', op[1], op[2]]
+    if t == 'set':
+        return ['set', op[1], op[2], [kv for kv in op[3] if not gone(kv[0])]]
+    if t == 'select':
+        return ['select', op[1], strip_filter(op[2], shape)]
+    if t == 'selectby' and gone(op[2]):
+        return ['selectby', op[1], None, None]
+    return op
+
+
+def gen_history(rng, n, mode=None, warm=None, refs=True, conn=None, shape=None):
+    if shape is None:
+        shape = rng.choice(SHAPES) if rng.random() < 0.35 else []
+    case = gen_history0(rng, n, mode, warm, refs, conn, tuple(shape))
+    case['shape'] = list(shape)
+    return case
+
+
+def gen_history0(rng, n, mode, warm, refs, conn, shape):
     mode = mode or ('txn' if rng.random() < 0.15 else 'auto')
     warm = (rng.random() < 0.5) if warm is None else warm
     conn = conn or ('explicit' if rng.random() < 1.0 / 3 else 'default')
     ops = []
-    sim = Sim(mode)
+    sim = Sim(mode, shape)
     pool = [1, 2, 3, 4, 5]
 
     def anyid(e=None):
@@ -156,6 +201,7 @@ def gen_history(rng, n, mode=None, warm=None, refs=True, conn=None):
                     continue                                   # omitted
                 kw[col] = value(col, 0.75 if col == 'x' else 0.5)
             unk = rng.random() < 0.05
+            kw = strip_op(['create', k, kw, unk], shape)[2]
             ops.append(['create', k, kw, unk])
             sim.create(k, kw, unk)
         elif r < 0.38:
@@ -198,7 +244,7 @@ def gen_history(rng, n, mode=None, warm=None, refs=True, conn=None):
             ops.append(['ref', anyid('B') if rng.random() < 0.9 else sim.seq + rng.randint(1, 3)])
         else:
             ops.append(['unref', anyid('B')])
-    return {'mode': mode, 'warm': warm, 'conn': conn, 'ops': ops}
+    return {'mode': mode, 'warm': warm, 'conn': conn, 'ops': [strip_op(o, shape) for o in ops]}
 
 
 FAILS = {
@@ -278,6 +324,31 @@ def enum_cases():
     return out
 
 
+def enum_shape_cases():
+    """hierarchies in which some levels declare no own column: every class x every entry class, fetched on a cold and on a
+    warm cache through get from every ancestor level and through select on every level, written and destroyed through what
+    was handed out"""
+    out = []
+    n = 0
+    for shape in SHAPES:
+        def kw(k, v):
+            return {COLOF[c]: v for c in CHAIN[k] if c not in shape}
+        for k in CLASSES:
+            for e in CHAIN[k]:
+                n += 1
+                ops = [['create', k, kw(k, 1), False], ['create', 'C', kw('C', 2), False], ['create', 'B2', kw('B2', 3), False]]
+                for e2 in CHAIN[k]:
+                    ops += [['get', e2, 1], ['select', e2, ['cmp', 'x', '>=', 1]]]
+                ops += [['get', 'A', 2], ['get', 'B', 2], ['setattr', e, 1, 'x', 7]]
+                if k not in shape:
+                    ops.append(['setattr', e, 1, COLOF[k], 8])
+                ops += [['selectby', e, 'x', 7], ['byx', e, 7], ['destroy', e, 1], ['select', 'A', ['true']], ['get', k, 1],
+                        ['destroy', 'A', 2], ['select', 'A', ['true']], ['create', k, kw(k, 9), True], ['select', 'A', ['true']]]
+                out.append({'mode': 'txn' if n % 5 == 0 else 'auto', 'warm': n % 2 == 0, 'conn': 'explicit' if n % 3 == 0 else 'default',
+                            'shape': shape, 'ops': ops})
+    return out
+
+
 def corpus():
     return [
         # finding: a cascade=False reference to the middle level: the ancestor row is deleted before the refusal
@@ -309,11 +380,15 @@ SEEDED = [
     {'mode': 'txn', 'warm': False, 'conn': 'explicit',
      'ops': [['create', 'B', {'x': 1, 'y': 1}, False], ['create', 'B2', {'x': 2, 'w': 1}, False], ['byx', 'A', 2], ['setattr', 'A', 1, 'x', 5],
              ['destroy', 'B2', 2], ['select', 'A', ['true']]]},
+    # seeded C15/c15_get_skips_columnless_level: a middle level without own columns, cold get from above it, destroy through the result
+    {'mode': 'auto', 'warm': False, 'conn': 'default', 'shape': ['B'],
+     'ops': [['create', 'C', {'x': 1, 'z': 1}, False], ['create', 'C', {'x': 2, 'z': 2}, False], ['get', 'A', 1], ['get', 'B', 1],
+             ['get', 'C', 1], ['select', 'B', ['true']], ['destroy', 'A', 2], ['select', 'A', ['true']]]},
 ]
 
 
 def generate(rng, tier):
-    out = list(enum_cases())
+    out = list(enum_cases()) + enum_shape_cases()
     n = 3000 if tier == "quick" else 30000
     for i in range(n):
         out.append(gen_history(rng, rng.randint(3, 16)))
@@ -328,47 +403,41 @@ def search_cases(rng, tier):
 _FX = {}
 
 
-def fixture():
-    if _FX:
-        return _FX
+def canon(name):
+    """class name without the per-shape suffix"""
+    return re.sub(r'x\d+$', '', name) if isinstance(name, str) else name
+
+
+def fixture(shape=()):
+    """the hierarchy in which the classes named in `shape` (never the root) declare no own column"""
+    shape = tuple(sorted(shape))
+    if shape in _FX:
+        return _FX[shape]
     from sqlobject import IntCol, ForeignKey, SQLObject, dbconnection
     from sqlobject.inheritance import InheritableSQLObject
-    hub = dbconnection.ConnectionHub()
+    from sqlobject.sqlite.sqliteconnection import SQLiteConnection
+    hub = _FX.setdefault('hub', dbconnection.ConnectionHub())
+    hub.processConnection = SQLiteConnection(':memory:')      # class creation looks at the connection: never a finished Transaction
+    sfx = ('x%d' % sum(1 << CLASSES.index(k) for k in shape)) if shape else ''
+    reg = 'verif_c15' + sfx
 
-    class VerifC15HA(InheritableSQLObject):
-        class sqlmeta:
-            registry = 'verif_c15'
-            table = 'verif_c15_ha'
-        _connection = hub
-        x = IntCol(default=None, alternateID=True)
+    def mk(key, base, col, extra=None):
+        attrs = {'sqlmeta': type('sqlmeta', (), {'registry': reg, 'table': TABLE[key]})}
+        if key not in shape:
+            attrs[COLOF[key]] = col
+        attrs.update(extra or {})
+        return type(PYNAME[key] + sfx, (base,), attrs)
 
-    class VerifC15HB(VerifC15HA):
-        class sqlmeta:
-            registry = 'verif_c15'
-            table = 'verif_c15_hb'
-        y = IntCol(unique=True)
-
-    class VerifC15HC(VerifC15HB):
-        class sqlmeta:
-            registry = 'verif_c15'
-            table = 'verif_c15_hc'
-        z = IntCol(default=None, unique=True)
-
-    class VerifC15HB2(VerifC15HA):
-        class sqlmeta:
-            registry = 'verif_c15'
-            table = 'verif_c15_hb2'
-        w = IntCol(default=None, unique=True)
-
-    class VerifC15HR(SQLObject):
-        class sqlmeta:
-            registry = 'verif_c15'
-            table = 'verif_c15_hr'
-        _connection = hub
-        b = ForeignKey('VerifC15HB', cascade=False)
-
-    _FX.update({'hub': hub, 'A': VerifC15HA, 'B': VerifC15HB, 'C': VerifC15HC, 'B2': VerifC15HB2, 'R': VerifC15HR})
-    return _FX
+    HA = mk('A', InheritableSQLObject, IntCol(default=None, alternateID=True), {'_connection': hub})
+    HB = mk('B', HA, IntCol(unique=True))
+    HC = mk('C', HB, IntCol(default=None, unique=True))
+    HB2 = mk('B2', HA, IntCol(default=None, unique=True))
+    HR = type('VerifC15HR' + sfx, (SQLObject,), {
+        'sqlmeta': type('sqlmeta', (), {'registry': reg, 'table': 'verif_c15_hr'}),
+        '_connection': hub, 'b': ForeignKey(PYNAME['B'] + sfx, cascade=False)})
+    fx = {'hub': hub, 'A': HA, 'B': HB, 'C': HC, 'B2': HB2, 'R': HR, 'shape': shape}
+    _FX[shape] = fx
+    return fx
 
 
 def exn_name(e):
@@ -432,20 +501,25 @@ def build_filter(fx, k, f):
     return c
 
 
-def views(obj):
-    """what each instance of the _parent chain shows for each column visible from it (most-derived first)"""
+def attr(p, c, shape):
+    return None if c in shape else getattr(p, COLOF[c])
+
+
+def views(obj, shape=()):
+    """what each instance of the _parent chain shows for each column visible from it (most-derived first);
+    a level without an own column shows None in its place"""
     out = []
     p = obj
     while p is not None:
-        k = KOFPY[type(p).__name__]
-        out.append([k, [getattr(p, COLOF[c]) for c in CHAIN[k]]])
+        k = KOFPY[canon(type(p).__name__)]
+        out.append([k, [attr(p, c, shape) for c in CHAIN[k]]])
         p = p._parent
     return out
 
 
-def obj_rec(obj):
-    k = KOFPY.get(type(obj).__name__, type(obj).__name__)
-    return [obj.id, k, [getattr(obj, COLOF[c]) for c in CHAIN.get(k, [])]]
+def obj_rec(obj, shape=()):
+    k = KOFPY.get(canon(type(obj).__name__), type(obj).__name__)
+    return [obj.id, k, [attr(obj, c, shape) for c in CHAIN.get(k, [])]]
 
 
 def from_tables(sel):
@@ -455,7 +529,9 @@ def from_tables(sel):
     return sorted(KOFTABLE.get(x.strip(), x.strip()) for x in m.group(1).split(','))
 
 
-def run_history(fx, case):
+def run_history(case):
+    shape = tuple(sorted(case.get('shape') or ()))
+    fx = fixture(shape)
     from sqlobject.sqlite.sqliteconnection import SQLiteConnection
     base = SQLiteConnection(':memory:')
     hub = fx['hub']
@@ -483,7 +559,8 @@ def run_history(fx, case):
     def dump():
         t = {}
         for k in CLASSES:
-            t[k] = [list(r) for r in conn.queryAll('SELECT id, %s, child_name FROM %s ORDER BY id' % (COLOF[k], TABLE[k]))]
+            t[k] = [[r[0], r[1], canon(r[2])] for r in conn.queryAll('SELECT id, %s, child_name FROM %s ORDER BY id' % (
+                'NULL' if k in shape else COLOF[k], TABLE[k]))]
         refs = [r[0] for r in conn.queryAll('SELECT b_id FROM verif_c15_hr ORDER BY id')]
         return t, refs
 
@@ -505,13 +582,13 @@ def run_history(fx, case):
                         kw['nosuch'] = 1
                     kw.update(ckw)
                     o = fx[op[1]](**kw)
-                    r = ['id', o.id, KOFPY.get(type(o).__name__, '?'), views(o)]
+                    r = ['id', o.id, KOFPY.get(canon(type(o).__name__), '?'), views(o, shape)]
                 elif t == 'get':
                     o = fx[op[1]].get(op[2], **ckw)
-                    r = ['obj', o.id, KOFPY.get(type(o).__name__, '?'), views(o)]
+                    r = ['obj', o.id, KOFPY.get(canon(type(o).__name__), '?'), views(o, shape)]
                 elif t in ('setattr', 'set'):
                     o = fx[op[1]].get(op[2], **ckw)
-                    k = KOFPY[type(o).__name__]
+                    k = KOFPY[canon(type(o).__name__)]
                     if t == 'setattr':
                         if CLSOF[op[3]] not in CHAIN[k]:
                             r = ['skip']
@@ -525,22 +602,22 @@ def run_history(fx, case):
                         seen = []
                         for e in CHAIN[k]:
                             o2 = fx[e].get(op[2], **ckw)
-                            seen.append([e, o2.id, KOFPY.get(type(o2).__name__, '?'), views(o2), o2 is o])
+                            seen.append([e, o2.id, KOFPY.get(canon(type(o2).__name__), '?'), views(o2, shape), o2 is o])
                         r = ['ok', seen]
                 elif t == 'select':
                     sel = fx[op[1]].select(build_filter(fx, op[1], op[2]), **ckw)
                     frm = from_tables(sel)
-                    objs = sorted([obj_rec(o) for o in sel], key=lambda x: x[0])
+                    objs = sorted([obj_rec(o, shape) for o in sel], key=lambda x: x[0])
                     r = ['objs', objs, sel.count(), frm]
                 elif t == 'selectby':
                     kw = {} if op[2] is None else {op[2]: op[3]}
                     sel = fx[op[1]].selectBy(**dict(kw, **ckw))
                     frm = from_tables(sel) if kw else [op[1]]
-                    objs = sorted([obj_rec(o) for o in sel], key=lambda x: x[0])
+                    objs = sorted([obj_rec(o, shape) for o in sel], key=lambda x: x[0])
                     r = ['objs', objs, sel.count(), frm]
                 elif t == 'byx':
                     o = fx[op[1]].byX(op[2], **ckw)
-                    r = ['obj', o.id, KOFPY.get(type(o).__name__, '?'), views(o)]
+                    r = ['obj', o.id, KOFPY.get(canon(type(o).__name__), '?'), views(o, shape)]
                 elif t == 'destroy':
                     o = fx[op[1]].get(op[2], **ckw)
                     o.destroySelf()
@@ -578,11 +655,10 @@ def run_history(fx, case):
 
 def run_impl(cases):
     import gc
-    fx = fixture()
     out = []
     for c in cases:
         try:
-            out.append(run_history(fx, c))
+            out.append(run_history(c))
         except Exception as e:
             out.append({'crash': '%s: %s' % (type(e).__name__, e)})
         gc.collect()
@@ -911,7 +987,7 @@ def nontrivial(case, obs):
 
 
 def key(case):
-    return [case['mode'], case['warm'], case.get('conn', 'default'), case['ops']]
+    return [case['mode'], case['warm'], case.get('conn', 'default'), case.get('shape') or [], case['ops']]
 
 
 def distribution(cases, obs):
@@ -922,6 +998,9 @@ def distribution(cases, obs):
         d['mode'][c['mode']] = d['mode'].get(c['mode'], 0) + 1
         d['warm'] += 1 if c['warm'] else 0
         d.setdefault('explicit_connection', 0)
+        sh = '+'.join(c.get('shape') or []) or 'none'
+        d.setdefault('columnless', {})
+        d['columnless'][sh] = d['columnless'].get(sh, 0) + 1
         d['explicit_connection'] += 1 if c.get('conn') == 'explicit' else 0
         born = {}
         for op, st in zip(c['ops'], o['steps']):
@@ -944,7 +1023,7 @@ def distribution(cases, obs):
 
 
 def explain(case, obs):
-    lines = ['mode %s, warm %s, connection %s' % (case['mode'], case['warm'], case.get('conn', 'default'))]
+    lines = ['mode %s, warm %s, connection %s, classes without own column %s' % (case['mode'], case['warm'], case.get('conn', 'default'), case.get('shape') or [])]
     for op, st in zip(case['ops'], obs.get('steps', [])):
         lines.append('%r -> %r | %r refs %r' % (op, st['r'], st['t'], st['refs']))
     return '\n'.join(lines)
@@ -988,10 +1067,14 @@ def cq_filter(f):
     return '(%s %s %s)' % ('FAnd' if t == 'and' else 'FOr', cq_filter(f[1]), cq_filter(f[2]))
 
 
-def cq_op(op):
+def cq_op(op, shape=()):
     t = op[0]
     if t == 'create':
-        kw = op[2]
+        # a level without an own column behaves as one whose (nullable) column is always given NULL
+        kw = dict(op[2])
+        for k in shape:
+            if k in CHAIN[op[1]]:
+                kw[COLOF[k]] = None
         return '(Create %s (mkargs %s) %s)' % (CQ[op[1]], ' '.join(cq_inval(kw.get(c), c in kw) for c in 'xyzw'),
                                                'true' if op[3] else 'false')
     if t == 'get':
@@ -1049,5 +1132,5 @@ def coq_case(c, o):
     for op, st in zip(c['ops'], o['steps']):
         tabs = '[%s]' % '; '.join('[%s]' % '; '.join('mkrow %s %s %s' % (zlit(r[0]), optz(r[1]), cq_tag(r[2])) for r in st['t'][k])
                                   for k in CLASSES)
-        steps.append('mkstep %s %s %s [%s]' % (cq_op(op), cq_res(st['r']), tabs, '; '.join(zlit(z) for z in st['refs'])))
+        steps.append('mkstep %s %s %s [%s]' % (cq_op(op, tuple(c.get('shape') or ())), cq_res(st['r']), tabs, '; '.join(zlit(z) for z in st['refs'])))
     return 'mkcase %s [%s]' % ('true' if c['mode'] == 'auto' else 'false', ';\n  '.join(steps))
